@@ -64,3 +64,39 @@ Fixpoint e_drive (sf : nat) (req : N -> N) (fuel : nat) (i : N) (p : bytes) (r :
   end.
 
 End Emitter.
+
+(* ------------------------------------------------ two producers one after the other *)
+
+(* The first producer runs to its end; the state it ends in decides where the second starts
+   ([link]: e.g. the signature packets computed from what the first one hashed). *)
+Section Seq.
+
+Variables R1 R2 : Type.
+Variable adv1 : R1 -> option (bytes * R1).
+Variable adv2 : R2 -> option (bytes * R2).
+Variable link : R1 -> R2.
+
+Inductive rseq := In1 (r : R1) | In2 (r : R2).
+
+Definition adv_seq (s : rseq) : option (bytes * rseq) :=
+  match s with
+  | In1 r =>
+      match adv1 r with
+      | Some (b, r') => Some (b, In1 r')
+      | None => match adv2 (link r) with Some (b, r2) => Some (b, In2 r2) | None => None end
+      end
+  | In2 r => match adv2 r with Some (b, r2) => Some (b, In2 r2) | None => None end
+  end.
+
+(* the state in which the first producer ends *)
+Fixpoint final1 (fuel : nat) (r : R1) : R1 :=
+  match fuel with
+  | O => r
+  | S f => match adv1 r with Some (_, r') => final1 f r' | None => r end
+  end.
+
+End Seq.
+
+(* a list of ready-made pieces *)
+Definition adv_list (l : list bytes) : option (bytes * list bytes) :=
+  match l with [] => None | x :: r => Some (x, r) end.
